@@ -173,6 +173,16 @@ class Interp:
             return pos + n, val
         if isinstance(con, D.AsciiComplex):
             return self.run(con.subcon, pos, ctx, path, kind + (("AsciiComplex",),))
+        if type(con).__name__ == "StringEncoded" and type(con.subcon).__name__ in ("FixedSized", "NullStripped"):
+            # a raw construct PaddedString (not wrapped by one of the repository's adapters)
+            fs = con.subcon
+            while type(fs).__name__ != "FixedSized":
+                fs = fs.subcon
+            n = self.ev(fs.length, ctx)
+            if not isinstance(n, int):
+                self.constraints.append(n >= 0)
+            self.leaves.append(Leaf(path, kind + (("RawPaddedString",),), pos, n))
+            return pos + n, None
         if isinstance(con, D.Factor):
             return self.run(con.subcon, pos, ctx, path, kind + (("Factor", float(con.factor)),))
         if isinstance(con, D.Metadata):
